@@ -249,11 +249,18 @@ theorem crnRefine_rel (hG : G.ids.Nodup) (h : CrnIso sel G H g) {P' P : List (Li
 
 /-- **The initial partitions correspond.** -/
 theorem crnInitPart_rel (h : CrnIso sel G H g) : PartRel g (crnInitPart sel H) (crnInitPart sel G) := by
+  have hemp : H.ids.isEmpty = G.ids.isEmpty := by
+    have hl := h.perm.length_eq
+    rw [List.length_map] at hl
+    cases hH : H.ids <;> cases hG' : G.ids <;> simp [hH, hG'] at hl ⊢
   unfold crnInitPart
   split
-  · refine List.Forall₂.cons ?_ List.Forall₂.nil
-    unfold CellRel
-    exact ((sortNat_perm _).map g).trans (h.perm.trans (sortNat_perm _).symm)
+  · rw [hemp]
+    split
+    · exact List.Forall₂.nil
+    · refine List.Forall₂.cons ?_ List.Forall₂.nil
+      unfold CellRel
+      exact ((sortNat_perm _).map g).trans (h.perm.trans (sortNat_perm _).symm)
   · apply irSplitBy_rel Canon.Val.ltList Canon.Val.ltList_strictTotal g _ _ H.ids G.ids h.perm
     intro w hw
     exact crnNodeKey_congr sel _ _ (h.node w hw)
@@ -261,11 +268,14 @@ theorem crnInitPart_rel (h : CrnIso sel G H g) : PartRel g (crnInitPart sel H) (
 theorem crnInitPart_sub (sel : SelD) (G : LGraph) : PartSub G.ids (crnInitPart sel G) := by
   unfold crnInitPart
   split
-  · intro c hc
-    simp only [List.mem_singleton] at hc
-    subst hc
-    intro x hx
-    exact (mem_sortNat x _).1 hx
+  · split
+    · intro c hc
+      exact absurd hc List.not_mem_nil
+    · intro c hc
+      simp only [List.mem_singleton] at hc
+      subst hc
+      intro x hx
+      exact (mem_sortNat x _).1 hx
   · exact irSplitBy_sub _ _ _
 
 theorem mem_crnChildren (c : List Nat) (v : Nat) : v ∈ crnChildren c ↔ v ∈ c := mem_sortNat v c
